@@ -252,7 +252,10 @@ func instrIndex(in ssa.Instruction) int {
 	return -1
 }
 
-// dominates reports whether a is executed before b on every path reaching b (same function).
+// dominates reports whether a is executed before b on every path reaching b (same function). In a function with
+// thread blocks (a join that tests a value merged there, as left by a spliced helper that returns a status which the
+// caller tests at once) the dominator tree is too coarse: "every path" means every FEASIBLE path, where a thread
+// block is left through the successor its predecessor determines.
 func dominates(a, b ssa.Instruction) bool {
 	if a.Parent() != b.Parent() {
 		return false
@@ -260,23 +263,114 @@ func dominates(a, b ssa.Instruction) bool {
 	if a.Block() == b.Block() {
 		return instrIndex(a) < instrIndex(b)
 	}
-	return a.Block().Dominates(b.Block())
+	if a.Block().Dominates(b.Block()) {
+		return true
+	}
+	if !funcHasThreads(a.Parent()) {
+		return false
+	}
+	return !threadedReach(a.Parent(), b.Block(), a.Block(), nil, -1)
 }
 
 // edgeDominates: does taking the edge from the If terminating block `ifb` to its successor number succ
-// (0 = true edge, 1 = false edge) lie on every path to target?
+// (0 = true edge, 1 = false edge) lie on every (feasible) path to target?
 func edgeDominates(ifb *ssa.BasicBlock, succ int, target *ssa.BasicBlock) bool {
 	s := ifb.Succs[succ]
 	if s == ifb.Succs[1-succ] {
 		return false
 	}
 	// s must be entered only through this edge (or through blocks it dominates: loops back to s)
+	plain := true
 	for _, p := range s.Preds {
 		if p != ifb && !s.Dominates(p) {
-			return false
+			plain = false
 		}
 	}
-	return s == target || s.Dominates(target)
+	if plain && (s == target || s.Dominates(target)) {
+		return true
+	}
+	f := ifb.Parent()
+	if !funcHasThreads(f) {
+		return false
+	}
+	// feasible-path version: target is reachable, but not without taking this edge
+	if !threadedReach(f, target, nil, nil, -1) {
+		return false
+	}
+	return !threadedReach(f, target, nil, ifb, succ)
+}
+
+// threadCache: per function, whether it has thread blocks (reset for every program that is loaded: nothing of a
+// previous variant may be retained).
+var threadCache = map[*ssa.Function]bool{}
+
+func resetThreadCache() { threadCache = map[*ssa.Function]bool{} }
+
+func funcHasThreads(f *ssa.Function) bool {
+	if v, ok := threadCache[f]; ok {
+		return v
+	}
+	has := false
+	for _, b := range f.Blocks {
+		if !isThreadBlock(b) {
+			continue
+		}
+		for _, p := range b.Preds {
+			if len(feasibleSuccsNoFacts(p, b)) == 1 {
+				has = true
+			}
+		}
+	}
+	threadCache[f] = has
+	return has
+}
+
+// feasibleSuccsNoFacts: feasibleSuccs restricted to what the phi edge itself tells (constants, fresh values): used
+// inside the dominance computation, which must not ask for dominance-based facts in turn.
+var noFactsMode = false
+
+func feasibleSuccsNoFacts(pred, b *ssa.BasicBlock) []int {
+	old := noFactsMode
+	noFactsMode = true
+	defer func() { noFactsMode = old }()
+	return feasibleSuccs(pred, b)
+}
+
+// threadedReach: can target be reached from the function's entry along feasible paths that avoid block `avoid`
+// (nil: none) and do not take the edge cutBlk -> successor number cutSucc (cutBlk nil: none)?
+func threadedReach(f *ssa.Function, target, avoid, cutBlk *ssa.BasicBlock, cutSucc int) bool {
+	if len(f.Blocks) == 0 {
+		return false
+	}
+	type vkey struct{ pred, b *ssa.BasicBlock }
+	seen := map[vkey]bool{}
+	var walk func(pred, b *ssa.BasicBlock) bool
+	walk = func(pred, b *ssa.BasicBlock) bool {
+		if b == avoid {
+			return false
+		}
+		if b == target {
+			return true
+		}
+		k := vkey{nil, b}
+		if isThreadBlock(b) {
+			k.pred = pred
+		}
+		if seen[k] {
+			return false
+		}
+		seen[k] = true
+		for _, si := range feasibleSuccsNoFacts(pred, b) {
+			if b == cutBlk && si == cutSucc {
+				continue
+			}
+			if walk(b, b.Succs[si]) {
+				return true
+			}
+		}
+		return false
+	}
+	return walk(nil, f.Blocks[0])
 }
 
 // pathQuery walks the instruction-level CFG from `from` (exclusive) and reports the first path that reaches a
@@ -494,11 +588,17 @@ func nilnessAt(e ssa.Value, blk, to *ssa.BasicBlock) (isNil, known bool) {
 		switch x := e.(type) {
 		case *ssa.Const:
 			return x.IsNil(), true
-		case *ssa.MakeInterface:
+		case *ssa.MakeInterface, *ssa.Alloc, *ssa.MakeSlice, *ssa.MakeMap, *ssa.MakeChan, *ssa.MakeClosure:
 			return false, true
 		case *ssa.Call:
 			n := calleeName(&x.Call)
 			if n == "fmt.Errorf" || n == "errors.New" {
+				return false, true
+			}
+		case *ssa.TypeAssert:
+			// an item taken from a container/heap queue: the queues of this repository only ever hold non-nil items
+			// (every heap.Push is given a fresh allocation or an item that was popped: C06's rule R-HEAP.non-nil)
+			if c, ok := x.X.(*ssa.Call); ok && !x.CommaOk && calleeName(&c.Call) == "container/heap.Pop" {
 				return false, true
 			}
 		case *ssa.ChangeInterface:
@@ -506,6 +606,9 @@ func nilnessAt(e ssa.Value, blk, to *ssa.BasicBlock) (isNil, known bool) {
 			continue
 		}
 		break
+	}
+	if noFactsMode {
+		return false, false
 	}
 	for _, f := range edgeFacts(blk, to) {
 		if f.X == e {
@@ -1293,4 +1396,52 @@ func sliceRoot(v ssa.Value) ssa.Value {
 // reachableBlockEdgeFree: block to can be reached from block from (or is the same block).
 func reachableBlockEdgeFree(from, to *ssa.BasicBlock) bool {
 	return from == to || reachableBlock(from, to)
+}
+
+// phiLeaves expands phis (to the given depth): the values that can flow into v.
+func phiLeaves(v ssa.Value, depth int) []ssa.Value {
+	seen := map[ssa.Value]bool{}
+	var out []ssa.Value
+	var walk func(x ssa.Value, d int)
+	walk = func(x ssa.Value, d int) {
+		if seen[x] {
+			return
+		}
+		seen[x] = true
+		if ph, ok := x.(*ssa.Phi); ok && d > 0 {
+			for _, e := range ph.Edges {
+				walk(e, d-1)
+			}
+			return
+		}
+		out = append(out, x)
+	}
+	walk(v, depth)
+	return out
+}
+
+// valueLeaf: one value that can flow into a use, with the relational facts that hold on that way in.
+type valueLeaf struct {
+	V     ssa.Value
+	Facts []relFact
+}
+
+// valueLeaves expands phis: each edge value with the facts of its edge (guards dominating the predecessor plus the
+// branch taken at its end), together with the facts of the use's own block.
+func valueLeaves(v ssa.Value, at *ssa.BasicBlock, depth int) []valueLeaf {
+	var out []valueLeaf
+	var walk func(x ssa.Value, facts []relFact, d int)
+	walk = func(x ssa.Value, facts []relFact, d int) {
+		if ph, ok := x.(*ssa.Phi); ok && d > 0 {
+			for i, e := range ph.Edges {
+				pred := ph.Block().Preds[i]
+				f2 := append(append([]relFact{}, facts...), edgeFacts(pred, ph.Block())...)
+				walk(e, f2, d-1)
+			}
+			return
+		}
+		out = append(out, valueLeaf{x, facts})
+	}
+	walk(v, blockFacts(at), depth)
+	return out
 }
